@@ -244,7 +244,6 @@ func indexLoop(h *ssa.BasicBlock) (idx ssa.Value, bound ssa.Value, ok bool) {
 	return nil, nil, false
 }
 
-
 // pathToExit is pathAvoiding towards one exit alternative: when the alternative
 // is one incoming edge of a merged return (single-exit style `err = f(); if err
 // == nil { err = g() }; return err`), only paths arriving over that edge count.
@@ -259,7 +258,6 @@ func pathToExit(fn *ssa.Function, from ssa.Instruction, e exitAlt, avoid func(ss
 	defer func() { pathEdgeFilter = old }()
 	return pathAvoiding(fn, from, func(in ssa.Instruction) bool { return in == ssa.Instruction(e.Ret) }, avoid)
 }
-
 
 // dominatingHeader: the nearest loop header that dominates b — also for blocks
 // that leave the loop (return inside the body), which loopHeaderOf excludes.
